@@ -57,7 +57,7 @@ def support(ctx, cname):
     site = HDMQ + ".update"
     tr = upd(ctx, cname)
     app = [e for e in tr.of("localmut") if e.how == "method:append" and e.name in ("mins", "maxes") and e.func.qualname == site]
-    ctx.ob("ROLE", site, "per-feature range collected [%s]" % cname, len(app) == 2, "found %d" % len(app))
+    ctx.anchor(site, "per-feature range collected [%s]" % cname, len(app) == 2, "found %d" % len(app))
     for e in app:
         v = e.value.single_atom()[1][0].single_atom()
         ok = v is not None and v[0] == "mcall" and v[2] == ("min" if e.name == "mins" else "max")
@@ -74,7 +74,24 @@ def support(ctx, cname):
                "bin edges must be computed from the concatenation of the current reference and the current batch: %s" % q.short(e.value, 160), e)
     bh = q.find_calls(tr, HDMQ + "._build_histograms")
     bh = [e for e in bh if e.func.qualname == site]
-    ctx.ob("ROLE", site, "reference and batch histograms built [%s]" % cname, len(bh) == 2, "")
+    # idiom-independent necessary condition: the bin edges depend on the batch of this call AND on the current reference -
+    # directly, or through attributes that are kept coherent with the reference (re-stored wherever the reference is)
+    for e in bh:
+        for k, nm in ((1, "lower"), (2, "upper")):
+            if len(e.args) <= k:
+                continue
+            dx = q.deep_mentions(e.args[k], lambda a: a == ("param", "X"), tr.loops)
+            dr = q.deep_mentions(e.args[k], lambda a: a == ("attr", "reference"), tr.loops)
+            stale = []
+            if not dr:
+                caches = {a[1] for a in T.walk(e.args[k]) if a[0] == "attr" and a[1] not in ("reference", "_input_col_dim", "_input_cols")}
+                dr = bool(caches)
+                for cattr in sorted(caches):
+                    stale += _incoherent(ctx, cname, cattr)
+            ctx.ob("AGREE-support", site, "%s bin edges depend on the current batch and on the current reference [%s]" % (nm, cname), dx and dr and not stale,
+                   ("the edges use cached state that is not refreshed where the reference changes: %s" % "; ".join(stale[:3])) if stale else
+                   "edges must span reference and batch of THIS update: depends on batch=%s, on reference=%s" % (dx, dr), e)
+    ctx.anchor(site, "reference and batch histograms built [%s]" % cname, len(bh) == 2, "")
     if len(bh) == 2:
         ok = bh[0].args[1:] == bh[1].args[1:] and _root_attr(bh[0].args[0]) == "reference" and T.mentions(bh[1].args[0], lambda a: a == ("param", "X"))
         ctx.ob("AGREE-support", site, "both histograms use the same bin edges [%s]" % cname, ok, "", bh[0])
@@ -120,6 +137,21 @@ def support(ctx, cname):
             ctx.ob("FRM", "%s.%s" % (HDMQ, m), "bins = floor(sqrt(size of the reference)) [%s]" % cname, ok and okn, q.short(e.value, 120), e)
 
 
+def _incoherent(ctx, cname, cattr):
+    """Stores to self.reference that are not accompanied, in the same block, by a store to the cache attribute."""
+    out = []
+    for meth, cell in (("update", {"_drift_state": None, "detect_batch": 3}), ("set_reference", {"detect_batch": 1}), ("reset", {"detect_batch": 1})):
+        tr = ctx.trace(cname, meth, assume=cell, nonnull=("X",) if meth != "reset" else ())
+        for e in tr.stores("reference"):
+            if len(e.stack) > 2:
+                continue
+            mate = [x for x in tr.stores(cattr) if x.pc == e.pc and x.func is e.func] + \
+                   [x for x in tr.stores(cattr) if x.func is not e.func and x.seq > e.seq and len(x.pc) <= len(e.pc) + 0 and meth == "set_reference"]
+            if not mate:
+                out.append("%s:%d stores self.reference without refreshing self.%s" % (e.func.file.split("/")[-1], e.line, cattr))
+    return out
+
+
 def _col_base(t):
     a = t.single_atom()
     if a is not None and a[0] == "sub":
@@ -150,7 +182,7 @@ def distance(ctx, cname):
     site = HDMQ + ".update"
     tr = upd(ctx, cname)
     cd = tr.stores("current_distance")
-    ctx.ob("ROLE", site, "current_distance stored [%s]" % cname, len(cd) == 1, "")
+    ctx.anchor(site, "current_distance stored [%s]" % cname, len(cd) == 1, "")
     dyn = [e for e in tr.calls() if e.callee[0] == "dynamic" and e.func.qualname == site]
     ok = len(dyn) == 1
     if ok:
@@ -301,7 +333,7 @@ def hellinger(ctx):
     site = HDMQ + "._hellinger_distance"
     tr = ctx.trace("HDDDM", "_hellinger_distance")
     aug = [e for e in tr.of("local") if e.name == "f_distance" and e.aug is not None]
-    ctx.ob("ROLE", site, "accumulation over the bins", len(aug) == 1, "")
+    ctx.anchor(site, "accumulation over the bins", len(aug) == 1, "")
     if not aug:
         return
     inc = aug[0].aug[1]
